@@ -115,7 +115,12 @@ func forward(in net.Conn, tunnel *Tunnel) {
 		}
 		binary.Write(b1, binary.LittleEndian, uint16(n))
 		b1.Write(buf[:n])
-		tunnel.Write(createPacket(PKT_TYPE_DATA, b1.Bytes()))
+		if err := tunnel.Write(createPacket(PKT_TYPE_DATA, b1.Bytes())); err != nil {
+			// the outgoing side of the tunnel is gone: end the packet loop as well
+			log.Printf("Error writing to client %s", err)
+			tunnel.transportIn.Close()
+			break
+		}
 		b1.Reset()
 	}
 }
